@@ -11,6 +11,8 @@
  *        1..5 server first put into an ARBITRARY state of phase PRE-1 under the
  *             invariant, then a client abort (80h) is sent            (C05)
  *        6..10 same arbitrary state, then NMT reset communication      (C05)
+ *        11   arbitrary IDLE state (every left-over of earlier transfers), nothing in between (C05)
+ *   BSP  block upload: block size announced inside a PARTIAL acknowledge (0: the current one)
  *   PTGT object the arbitrary pre-state is open on (default domain)            */
 #include "sdo_inv.h"
 
@@ -51,6 +53,9 @@
 #define SMAX ((NSEG == 0) ? 4 : (7 * NSEG))
 #ifndef UBL
 #define UBL 4
+#endif
+#ifndef BSP
+#define BSP 0
 #endif
 
 typedef struct { uint16_t idx; uint8_t sub; uint8_t w; } XMUX;
@@ -126,7 +131,9 @@ void harness(void)
         od_str.Offset = ND_RANGE(0, OD_STR_SIZE);
         ASSUME(od_str.Offset <= slen);
         ASSUME(sdo_inv(s, 0, pt, alt));
-#if PRE <= 5
+#if PRE == 11
+        /* nothing: a fresh transfer must succeed from every idle state */
+#elif PRE <= 5
         fz(); f[0] = 0x80; mux(); put32(0x08000000);
         req();                                   /* client abort               */
         CHECK(env_tx_n <= 1, "abort is acknowledged at most once");
@@ -300,6 +307,7 @@ void harness(void)
         uint8_t *src = (TGT == 7) ? app.str : app.dom;
         static const uint8_t ak[] = AK;
         uint8_t  bs = BS;
+        uint8_t  bs_hi = BS;                         /* largest block size the server may be using */
         uint32_t cnt = 0;                            /* bytes accepted by client  */
         uint32_t blk;
         uint8_t  fin = 0;                            /* final segment accepted    */
@@ -312,7 +320,7 @@ void harness(void)
         req();
         for (blk = 0; blk < UBL; blk++) {
             if (!fin) {
-                uint32_t ebs = (bs > SDO_N) ? SDO_N : bs;      /* server may clamp to its buffer */
+                uint32_t ebs = (bs_hi > SDO_N) ? SDO_N : bs_hi;      /* server may clamp to its buffer */
                 uint32_t nseg = env_tx_n;
                 uint32_t k, q;
                 uint8_t  nbs;
@@ -344,7 +352,15 @@ void harness(void)
                 }
                 /* block size: kept with a partial acknowledge (known finding F06
                  * otherwise), BS2 announced with a complete one */
-                nbs = (k < nseg) ? bs : BS2;
+                if (k < nseg) {
+                    /* a block size announced inside a partial acknowledge: whether the server applies it to the
+                     * repeated block is not constrained (DESIGN.md appendix B); the data must be exact either way */
+                    nbs = (BSP != 0) ? BSP : bs;
+                    bs_hi = (nbs > bs_hi) ? nbs : bs_hi;
+                } else {
+                    nbs = BS2;
+                    bs_hi = nbs;
+                }
                 fz(); f[0] = 0xA2; f[1] = (uint8_t)k; f[2] = nbs;
                 bs = nbs;
                 req();
